@@ -58,6 +58,7 @@ func decHeader(src []byte) ([]byte, error, []byte, string) {
 	h := &wt.Header{}
 	if c14Dirty {
 		h.TakeFrom(seedHeader())
+		h.AppendTo(nil) // ... and the receiver has been encoded before: nothing of that encoding may survive the next decode
 	}
 	rest, err := h.TakeFrom(src)
 	if err != nil {
@@ -71,6 +72,7 @@ func decSeries(src []byte) ([]byte, error, []byte, string) {
 	ts := &wt.TimeSeries{}
 	if c14Dirty {
 		ts.TakeFrom(wt.NewTimeSeries(100, 160, 10, []wt.Value{1, 2, 3, 4, 5, 6}).AppendTo(nil))
+		ts.AppendTo(nil)
 	}
 	rest, err := ts.TakeFrom(src)
 	if err != nil {
@@ -84,6 +86,7 @@ func decPoints(src []byte) ([]byte, error, []byte, string) {
 	if c14Dirty {
 		seed := wt.Points{{Time: 7, Value: 7}, {Time: 8, Value: 8}, {Time: 9, Value: 9}, {Time: 10, Value: 10}, {Time: 11, Value: 11}}
 		pp.TakeFrom(seed.AppendTo(nil))
+		pp.AppendTo(nil)
 	}
 	rest, err := pp.TakeFrom(src)
 	if err != nil {
